@@ -192,28 +192,34 @@ CUTMAX, CUTMUL = (10, 6) if QUICK else (60, 1)
 
 @harness(
     "C06",
-    dom={"n": (1, 3), "r0": (0, 5), "r1": (0, 5), "r2": (0, 5), "seg": (0, 2), "cut": (0, CUTMAX), "ai": (0, 4), "kmax": (0 if not QUICK else 1, 3)},
-    split={"r0": "each", "ai": "each"},
+    dom={"n": (1, 3), "r0": (0, 5), "r1": (0, 5), "r2": (0, 5), "seg": (0, 2), "cut": (0, CUTMAX), "ai": (0, 4), "kmax": (0 if not QUICK else 1, 3), "flavour": (0, 1)},
+    split={"r0": "each", "ai": "each", "flavour": "each"},
     thorough_split={"r0": "each", "ai": "each", "r1": "each"},
-    witnesses=[{"n": 3, "r0": 0, "r1": 1, "r2": 2, "seg": 0, "cut": 0, "ai": 0, "kmax": 3}, {"n": 2, "r0": 1, "r1": 3, "r2": 0, "seg": 1, "cut": 5, "ai": 1, "kmax": 1}],
+    witnesses=[{"n": 3, "r0": 0, "r1": 1, "r2": 2, "seg": 0, "cut": 0, "ai": 0, "kmax": 3, "flavour": 0}, {"n": 2, "r0": 1, "r1": 3, "r2": 0, "seg": 1, "cut": 5, "ai": 1, "kmax": 1, "flavour": 0},
+               {"n": 3, "r0": 0, "r1": 0, "r2": 1, "seg": 0, "cut": 0, "ai": 0, "kmax": 3, "flavour": 1}],
     budget={"quick": 240, "thorough": 900},
     per_path=120,
-    bounds="pipelines of 1..3 requests drawn from 6 templates (body/no body, Connection: close|keep-alive|absent, HTTP/1.0|1.1) x segmentation {all in one read, one cut at any of the first 60 offsets (quick: every 6th), one byte per read for the first 40 bytes} x 5 application variants (read then answer, answer before reading, never read the body, response head first and the rest after reading, answer and return only while the next request is in progress) x keep_alive_max_requests in {1,2,1000} (thorough also 3)",
+    bounds="pipelines of 1..3 requests drawn from 6 templates (body/no body, Connection: close|keep-alive|absent, HTTP/1.0|1.1) x segmentation {all in one read, one cut at any of the first 60 offsets (quick: every 6th), one byte per read for the first 40 bytes} x 5 application variants (read then answer, answer before reading, never read the body, response head first and the rest after reading, answer and return only while the next request is in progress) x keep_alive_max_requests in {1,2,1000} (thorough also 3) x worker flavour {asyncio, trio: every primitive operation is a checkpoint}",
     encodes=["hypercorn/protocol/h11.py::H11Protocol._handle_events", "hypercorn/protocol/h11.py::H11Protocol._maybe_recycle", "hypercorn/protocol/h11.py::H11Protocol.stream_send",
              "hypercorn/protocol/h11.py::H11Protocol._create_stream", "hypercorn/protocol/http_stream.py::HTTPStream.app_send"],
     stubs=["tier B runtime"],
 )
-def h1_pipeline(n: int, r0: int, r1: int, r2: int, seg: int, cut: int, ai: int, kmax: int) -> bool:
+def h1_pipeline(n: int, r0: int, r1: int, r2: int, seg: int, cut: int, ai: int, kmax: int, flavour: int) -> bool:
     """
-    pre: DOM(h1_pipeline, n=n, r0=r0, r1=r1, r2=r2, seg=seg, cut=cut, ai=ai, kmax=kmax)
+    pre: DOM(h1_pipeline, n=n, r0=r0, r1=r1, r2=r2, seg=seg, cut=cut, ai=ai, kmax=kmax, flavour=flavour)
     post: _
     """
     enter()
-    ok, vec = pipeline(n, r0, r1, r2, seg, cut, ai, kmax)
+    flavour = conc(flavour, 0, 1)
+    if QUICK and flavour == 1:
+        seg = conc(seg, 0, 2)
+        if seg == 1:
+            return done(True, skipped="quick tier: the trio flavour runs with all requests in one read or byte-wise")
+    ok, vec = pipeline(n, r0, r1, r2, seg, cut, ai, kmax, "trio" if flavour == 1 else "asyncio")
     return done(ok, **vec)
 
 
-def pipeline(n, r0, r1, r2, seg, cut, ai, kmax):
+def pipeline(n, r0, r1, r2, seg, cut, ai, kmax, flavour="asyncio"):
     """The pipeline rig and its reference (no contract of its own: C18 drives it too); returns (ok, vector)."""
     n = conc(n, 1, 3)
     seg = conc(seg, 0, 2)
@@ -229,7 +235,7 @@ def pipeline(n, r0, r1, r2, seg, cut, ai, kmax):
     data = b"".join(_serialise(r) for r in reqs)
     log: list = []
     app = PipeApp(APPS[ai], log)
-    conn = Conn(app, make_config(keep_alive_max_requests=kmax))
+    conn = Conn(app, make_config(keep_alive_max_requests=kmax), flavour=flavour)
     app.ctx = conn.ctx
     if seg == 0:
         bounds_ = [len(data)]
@@ -328,4 +334,4 @@ def pipeline(n, r0, r1, r2, seg, cut, ai, kmax):
             why = f"connection closed by the server but tasks are still parked: {left}"
     if not why and conn.sched.errors:
         why = "exception escaped a task: %r" % (conn.sched.errors[0],)
-    return why == "", dict(reqs=[r["target"] for r in reqs], seg=seg, cut=cutv, app=APPS[ai], kmax=kmax, why=why)
+    return why == "", dict(reqs=[r["target"] for r in reqs], seg=seg, cut=cutv, app=APPS[ai], kmax=kmax, flavour=flavour, why=why)
